@@ -55,10 +55,15 @@ def frame(body, framing, layout, trailers=b"", ext=False, method=b"POST"):
 FOLLOWER = b"GET /next HTTP/1.1\r\nHost: h\r\n\r\n"
 
 
-def run_program(stream, cuts, program, body, source="iter"):
-    """program: list of (op, n) with n = None / int.  -> (events, info)"""
+LONG_FOLLOWER = b"GET /next?pad=" + b"p" * 300 + b" HTTP/1.1\r\nHost: h\r\n\r\n"
+
+
+def run_program(stream, cuts, program, body, source="iter", cfgkw=None, follower=None):
+    """program: list of (op, n) with n = None / int.  -> (events, info).  follower: the pipelined request the stream
+    ends with (default FOLLOWER); cfgkw: non-default parser settings"""
+    follower = follower or FOLLOWER
     src = Source(stream, cuts) if source == "iter" else TlsSock(stream, cuts) if source == "tls" else FakeSock(stream, cuts)
-    parser = RequestParser(make_cfg(), src, ("127.0.0.1", 1))
+    parser = RequestParser(make_cfg(**(cfgkw or {})), src, ("127.0.0.1", 1))
     starts = []
     un = parser.unreader
 
@@ -95,14 +100,14 @@ def run_program(stream, cuts, program, body, source="iter"):
         rec["contig"] = (r == body[pos:pos + len(r)])
         pos += len(r)
         ev.append(rec)
-    expect = stream.rfind(FOLLOWER) if stream.endswith(FOLLOWER) else len(stream)
+    expect = stream.rfind(follower) if stream.endswith(follower) else len(stream)
     try:
         nxt = next(parser)
         nstart = starts[-1]
-        if nxt.uri != "/next":
+        if not nxt.uri.startswith("/next"):
             nstart = -3
     except StopIteration:
-        nstart = src.delivered - len(un.buf.getvalue()) if not stream.endswith(FOLLOWER) else -2
+        nstart = src.delivered - len(un.buf.getvalue()) if not stream.endswith(follower) else -2
     except Exception as e:   # noqa
         nstart = -2
     ev.append({"e": "stop", "next_start": nstart, "expect_next": expect})
